@@ -131,9 +131,12 @@ pub fn swap_edge<T: CoordsFloat>(
     }
     if let Some((aa, ab, ac, ad)) = anchors {
         for (d, a) in [(b1r, aa), (b1l, ab), (l, ac), (r, ad)] {
+            let vid = map.vertex_id_transac(t, d)?;
             if let Some(a) = a {
-                let vid = map.vertex_id_transac(t, d)?;
                 map.write_attribute(t, vid, a)?;
+            } else {
+                // a corner without anchor must not inherit one from the intermediate merges
+                map.remove_attribute::<VertexAnchor>(t, vid)?;
             }
         }
     }
